@@ -46,6 +46,7 @@ type lsEnv struct {
 	// world bookkeeping: canonical source -> repo
 	repos map[string]*lsRepo
 	forceAdd bool
+	profile  string
 	wantBoth bool // a repository just moved between roots: prefer syncing both roots
 }
 
@@ -1022,7 +1023,11 @@ func (e *lsEnv) mutate(history *[]string) {
 	defer lsTimed("mutate")()
 	note := func(f string, a ...any) { *history = append(*history, fmt.Sprintf(f, a...)) }
 	ex := e.existing()
-	switch k := e.r.Intn(100); {
+	k := e.r.Intn(100)
+	if e.profile == "C34" { // layouts matter more than histories: more adds/renames/clutter, fewer moves
+		k = []int{10, 10, 10, 10, 10, 30, 52, 52, 60, 64, 72, 80, 85, 92, 92, 95}[e.r.Intn(16)]
+	}
+	switch {
 	case k < 25 || len(ex) == 0 || e.forceAdd: // add
 		c := e.randomRepoPath()
 		kind := "work"
@@ -1245,6 +1250,7 @@ func (e *lsEnv) pickSelectors(inv []lsShard) []string {
 // lsRun drives scenarios until n cases were emitted.
 func lsRun(t *testing.T, which string, n int) {
 	e := lsNewEnv(t, which)
+	e.profile = which
 	cases := 0
 	for sc := 0; cases < n; sc++ {
 		e.resetScenario()
